@@ -33,7 +33,7 @@ def fh(h, col, comp=0):
     return (np.asarray(h, dtype=np.float64) * 37.0 + base * 1000003.0 + comp * 0.25) / 1024.0
 
 
-def make_dir(rng, nslab, order, want_ranks, mt, halos_per_slab, scalar_vdev=False):
+def make_dir(rng, nslab, order, want_ranks, mt, halos_per_slab, scalar_vdev=False, physical=False):
     root = tempfile.mkdtemp(prefix='verif_hod_')
     sim = 'SimH'
     z = 0.5
@@ -88,6 +88,18 @@ def make_dir(rng, nslab, order, want_ranks, mt, halos_per_slab, scalar_vdev=Fals
         h['multi_halos'] = fh(hid, 'multi')
         h['randoms'] = fh(hid, 'rnd')
         h['shear_rank'] = fh(hid, 'sh')
+        if physical:
+            # values in the ranges the HOD rule expects (used by C09's end-to-end cases), still functions of the id
+            h['randoms'] = ((hid * 0.6180339887498949) % 1.0)
+            h['multi_halos'] = 1.0 + (hid % 3) * 0.5
+            h['deltac_rank'] = ((hid * 7) % 100) / 100.0 - 0.5
+            h['fenv_rank'] = ((hid * 13) % 100) / 100.0 - 0.5
+            h['shear_rank'] = ((hid * 29) % 100) / 100.0 - 0.5
+            h['N'] = (10 ** (1.5 + ((hid * 0.3819660112501051) % 1.0) * 3.3)).astype(np.uint32)
+            for c in range(3):
+                h['x_L2com'][:, c] = ((hid * (0.1234 + 0.1 * c)) % 1.0) * 1900.0 - 950.0
+                h['v_L2com'][:, c] = ((hid * (0.4321 + 0.1 * c)) % 1.0) * 800.0 - 400.0
+                h['randoms_gaus_vrms'][:, c] = ((hid * (0.777 + 0.1 * c)) % 1.0) * 300.0 - 150.0
         P = int(rng.integers(0, 4 * max(H, 1))) if H else 0
         p = np.zeros(P, dtype=pdt)
         if P:
@@ -108,6 +120,18 @@ def make_dir(rng, nslab, order, want_ranks, mt, halos_per_slab, scalar_vdev=Fals
             p['halo_shear'] = fh(host, 'sh')
             for j, r in enumerate(('ranks', 'ranksv', 'ranksp', 'ranksr', 'ranksc')):
                 p[r] = ser * 8 + j
+            if physical:
+                idx = np.searchsorted(np.sort(hid), host)
+                hs = h[np.argsort(hid)][idx]
+                p['halo_mass'] = hs['N'].astype(np.float64) * MPART
+                p['halo_vel'] = hs['v_L2com']
+                p['halo_deltac'], p['halo_fenv'], p['halo_shear'] = hs['deltac_rank'], hs['fenv_rank'], hs['shear_rank']
+                p['pos'] = hs['x_L2com'] + ((ser[:, None] * np.array([0.11, 0.23, 0.37])) % 1.0) - 0.5
+                p['vel'] = hs['v_L2com'] + ((ser[:, None] * np.array([0.31, 0.17, 0.53])) % 1.0) * 600 - 300
+                p['Np'] = 5 + ser % 40
+                p['randoms'] = 1e-4 + ((ser * 0.7548776662466927) % 1.0) * 0.9998
+                for j, r in enumerate(('ranks', 'ranksv', 'ranksp', 'ranksr', 'ranksc')):
+                    p[r] = ((ser * (0.211 + 0.1 * j)) % 1.0) * 2 - 1
         tag = '_MT' if mt else ''
         hf = os.path.join(sub, f'halos_xcom_{s}_seed600_abacushod_oldfenv{tag}_new.h5')
         pf = os.path.join(sub, f'particles_xcom_{s}_seed600_abacushod_oldfenv{tag}' + ('_withranks' if want_ranks else '') + '_new.h5')
@@ -130,6 +154,22 @@ class _NumpyProxy:
         return getattr(self._real, name)
 
 
+import contextlib
+
+
+@contextlib.contextmanager
+def stub_histogram(AH):
+    """abacus_hod sees a numpy whose histogramdd is a stub.  The module's jitted helper is compiled first,
+    while the real numpy is still in place (numba cannot type the proxy)."""
+    AH._searchsorted_parallel(np.arange(3, dtype=np.int64), np.arange(2, dtype=np.int64))
+    real_np = AH.np
+    AH.np = _NumpyProxy(real_np)
+    try:
+        yield
+    finally:
+        AH.np = real_np
+
+
 def f32(x):
     return np.asarray(x, dtype=np.float32).astype(np.float64)
 
@@ -146,15 +186,14 @@ def stage_and_check(run, AH, truth, flags, tracers, chunk, n_chunks, desc):
         # The constructor also builds 100^3 and 100^4-bin mass-function histograms (0.8 GB, ~2 s) that no
         # property is about: for most cases the abacus_hod module sees a numpy whose histogramdd is a
         # stub; every 8th case runs the constructor completely unmodified.
-        real_np = AH.np
-        if desc['case'] % 8 != 0:
-            AH.np = _NumpyProxy(real_np)
-        else:
-            run.count('unmodified_constructor_runs')
         try:
-            obj = AH.AbacusHOD(sim_params, HOD, chunk=chunk, n_chunks=n_chunks)
+            if desc['case'] % 8 != 0:
+                with stub_histogram(AH):
+                    obj = AH.AbacusHOD(sim_params, HOD, chunk=chunk, n_chunks=n_chunks)
+            else:
+                run.count('unmodified_constructor_runs')
+                obj = AH.AbacusHOD(sim_params, HOD, chunk=chunk, n_chunks=n_chunks)
         finally:
-            AH.np = real_np
             logging.disable(logging.NOTSET)
     hd, pd = obj.halo_data, obj.particle_data
     nslab = len(truth['slabs'])
